@@ -1,7 +1,7 @@
 CONSTANTS MaxInt = 5
  MinInt <- MinIntModel
  Slots = {1, 2}
- MaxDepth = 7
+ MaxDepth = 6
  WithApi = TRUE
  EmitPaths = TRUE
  WithFaults = TRUE
